@@ -4,6 +4,7 @@ import (
 	"context"
 	"errors"
 	"fmt"
+	"reflect"
 	"strings"
 	"testing"
 	"time"
@@ -138,6 +139,48 @@ func buildMsg(loc int, keys []string) *Msg {
 //go:norace
 func fillMsg(dst *Msg, src *Msg) { *dst = *src }
 
+// dynSeq numbers the message types made at run time (process-wide).
+var dynSeq int
+
+// newDynType makes a struct type no earlier run of this process has used: the
+// fields of Msg plus one uniquely named field. Whatever the library keeps per
+// message type for the lifetime of the process (a cache of field lookups, ...)
+// meets its first use of the type in every such run - and its first concurrent
+// use in concurrent ones - not only once per worker process.
+//
+//go:norace
+func newDynType() reflect.Type {
+	dynSeq++
+	return reflect.StructOf([]reflect.StructField{
+		{Name: "Name", Type: reflect.TypeOf("")},
+		{Name: "Nested", Type: reflect.TypeOf((*Inner)(nil))},
+		{Name: "Names", Type: reflect.TypeOf([]string(nil))},
+		{Name: "Items", Type: reflect.TypeOf([]*Item(nil))},
+		{Name: "Num", Type: reflect.TypeOf(int32(0))},
+		{Name: fmt.Sprintf("U%d", dynSeq), Type: reflect.TypeOf(int8(0))},
+	})
+}
+
+// dynMsg builds a message of the run's own type (pointer to struct) carrying keys.
+//
+//go:norace
+func dynMsg(t reflect.Type, loc int, keys []string) interface{} {
+	src := buildMsg(loc, keys)
+	v := reflect.New(t)
+	fillDyn(v.Interface(), src)
+	return v.Interface()
+}
+
+//go:norace
+func fillDyn(dst interface{}, src *Msg) {
+	e := reflect.ValueOf(dst).Elem()
+	e.FieldByName("Name").SetString(src.Name)
+	e.FieldByName("Nested").Set(reflect.ValueOf(src.Nested))
+	e.FieldByName("Names").Set(reflect.ValueOf(src.Names))
+	e.FieldByName("Items").Set(reflect.ValueOf(src.Items))
+	e.FieldByName("Num").SetInt(int64(src.Num))
+}
+
 // Call is one RPC issued by the harness.
 type Call struct {
 	ID           int
@@ -172,6 +215,7 @@ type Call struct {
 	// what was actually handed to the interceptor (C12: the picker must find
 	// exactly these in the call context)
 	sentReq, sentReply interface{}
+	dyn                bool    // request and reply are of the run's own message type
 	lag                *reqCtx // the call runs under the application's shared request context
 	repick             bool    // FlagRepick
 	pendingRepick      bool
@@ -248,6 +292,7 @@ type Sim struct {
 	stop         bool
 	addrSets     [][]resolver.Address
 	nConnErr     int
+	dynT         reflect.Type // plan.DynMsg: message type made for this run
 	nRepicks     int
 	req          *reqCtx  // the application's current request-scoped context
 	burstBound   []string // keys the concurrent burst certainly bound (enterSerial)
@@ -492,6 +537,10 @@ func (s *Sim) run() {
 	s.model = NewModel(s)
 	s.model.track = s.conc // concurrent burst: structural tracking only, no verdicts
 	s.initAddrs()
+	if s.plan.DynMsg {
+		s.dynT = newDynType()
+		s.res.Count("fault:message_type_never_seen_by_the_process", 1)
+	}
 
 	// C17: the configuration reaches the balancer the way gRPC delivers it:
 	// rendered as JSON, parsed by the registered builder's ParseConfig.
@@ -1351,6 +1400,11 @@ func (s *Sim) startCall(i int, o Op) {
 	loc := s.plan.Cfg.Locator % len(locators)
 	c.req = buildMsgFor(o.B, loc, c.ReqKeys)
 	c.reply = emptyMsgFor(o.B)
+	if s.dynT != nil && (o.B == MBind || o.B == MBound || o.B == MUnbind) {
+		c.req = dynMsg(s.dynT, loc, c.ReqKeys)
+		c.reply = reflect.New(s.dynT).Interface()
+		c.dyn = true
+	}
 	c.waiter.Note = fmt.Sprintf("call %d in flight", c.ID)
 	base := context.Background()
 	if o.F&FlagChain != 0 && s.lastCallCtx != nil && !c.NoGCP {
@@ -1650,6 +1704,10 @@ func (s *Sim) waitAndComplete(c *Call) error {
 			*rp = *buildMsg(s.plan.Cfg.Locator%len(locators), c.ReplyKeys)
 		case *MsgB:
 			*rp = *(buildMsgFor(c.Method, s.plan.Cfg.Locator%len(locators), c.ReplyKeys).(*MsgB))
+		default:
+			if c.dyn {
+				fillDyn(c.reply, buildMsg(s.plan.Cfg.Locator%len(locators), c.ReplyKeys))
+			}
 		}
 	case OutAppErr:
 		err = status.Error(codes.Internal, "application error")
